@@ -406,6 +406,111 @@ fn force(cfg: &'static Cfg, ld: &Arc<Loaded>, cap: usize, bps: &[usize], cmds: &
     (format!("{}|{}|{}", trace.join(" "), obs, status), timed_out)
 }
 
+// ------------------------------------------------------------------------------------------
+// the command-line front end (debugger/src/main.rs): whole sessions through the real binary
+// ------------------------------------------------------------------------------------------
+/// stdin: "<cfg>\t<-b rule indices>\t<1 = -r given>\t<lines>", lines = comma-separated b<k> d<k> ba da r c l;
+/// stdout: the case with the canonical form of what the binary printed appended.
+fn cli_mode(loaded: &[Arc<Loaded>], bin: &str, delay: u64, out: &mut impl Write) {
+    use std::process::{Command, Stdio};
+    let dir = std::env::current_exe().unwrap().parent().unwrap().join(format!("c17cli.{}", std::process::id()));
+    std::fs::create_dir_all(&dir).unwrap();
+    let stdin = std::io::stdin();
+    let mut n = 0u64;
+    for line in stdin.lock().lines() {
+        let line = line.unwrap();
+        if line.starts_with('#') || line.starts_with("MODE") || line.starts_with("CFG") { writeln!(out, "{}", line).unwrap(); continue; }
+        let f: Vec<&str> = line.split('\t').collect();
+        if f.len() < 4 { continue; }
+        let ci = CFGS.iter().position(|c| c.id == f[0]).expect("cfg");
+        let (cfg, ld) = (&CFGS[ci], &loaded[ci]);
+        let (gfile, ifile) = (dir.join(format!("{}.pest", cfg.id)), dir.join(format!("{}.txt", cfg.id)));
+        std::fs::write(&gfile, cfg.grammar).unwrap();
+        std::fs::write(&ifile, cfg.input).unwrap();
+        let mut cmd = Command::new("sh");
+        let mut sh = format!("RUST_BACKTRACE=0 exec '{}' --no-update -g '{}' -i '{}'", bin, gfile.display(), ifile.display());
+        for b in f[1].split(',').filter(|x| !x.is_empty()) { sh.push_str(&format!(" -b '{}'", ld.names[b.parse::<usize>().unwrap()])); }
+        if f[2] == "1" { sh.push_str(&format!(" -r '{}'", cfg.rule)); }
+        sh.push_str(" 2>&1");
+        let mut child = cmd.arg("-c").arg(&sh).stdin(Stdio::piped()).stdout(Stdio::piped()).spawn().expect("spawn pest_debugger");
+        let mut cin = child.stdin.take().unwrap();
+        let mut cout = child.stdout.take().unwrap();
+        let reader = std::thread::spawn(move || { let mut s = String::new(); let _ = std::io::Read::read_to_string(&mut cout, &mut s); s });
+        std::thread::sleep(Duration::from_millis(delay * 2));
+        for l in f[3].split(',').filter(|x| !x.is_empty()) {
+            let text = match l {
+                "ba" | "da" | "c" | "l" => l.to_string(),
+                "r" => format!("r {}", cfg.rule),
+                x if x.starts_with('b') => format!("b {}", ld.names[x[1..].parse::<usize>().unwrap()]),
+                x if x.starts_with('d') => format!("d {}", ld.names[x[1..].parse::<usize>().unwrap()]),
+                x => panic!("bad line {}", x),
+            };
+            if writeln!(cin, "{}", text).is_err() { break; }
+            let _ = cin.flush();
+            std::thread::sleep(Duration::from_millis(delay));
+        }
+        drop(cin);
+        // watchdog: a session that does not end by itself is killed
+        let t0 = Instant::now();
+        let mut killed = false;
+        loop {
+            match child.try_wait() { Ok(Some(_)) => break, _ => {} }
+            if t0.elapsed() > Duration::from_millis(12_000) { let _ = child.kill(); killed = true; break; }
+            std::thread::sleep(Duration::from_millis(5));
+        }
+        let _ = child.wait();
+        let text = reader.join().unwrap_or_default();
+        let mut obs: Vec<String> = Vec::new();
+        let mut at: Option<usize> = None;
+        let mut skip_next = false;
+        for l in text.lines() {
+            let t = l.trim();
+            if skip_next { skip_next = false; continue; }   // the message line of a panic report
+            if t.starts_with("thread '") && t.ends_with(':') { skip_next = true; continue; }
+            if t.is_empty() || t.starts_with("pest_debugger v") || t.starts_with("thread '") || t.starts_with("note: run with") || t.starts_with("stack backtrace") { continue; }
+            if let Some(rest) = t.strip_prefix("--> ") {
+                let mut it = rest.split(':');
+                let (ln, col): (usize, usize) = (it.next().unwrap().parse().unwrap_or(0), it.next().unwrap_or("0").parse().unwrap_or(0));
+                at = (0..=cfg.input.len()).filter(|p| cfg.input.is_char_boundary(*p))
+                    .find(|p| pest::Position::new(cfg.input, *p).unwrap().line_col() == (ln, col));
+                if at.is_none() { obs.push(format!("?pos{}:{}", ln, col)); }
+                continue;
+            }
+            if let Some(rest) = t.strip_prefix("= ") {
+                match rest.strip_prefix("parsing ") {
+                    Some(r) => obs.push(format!("B{}@{}", ld.names.iter().position(|n| n == r).map(|i| i as i64).unwrap_or(-1), at.map(|p| p as i64).unwrap_or(-1))),
+                    None => obs.push("ERR".into()),
+                }
+                at = None;
+                continue;
+            }
+            {
+                let mut w = t.split_whitespace();
+                let first = w.next().unwrap_or("");
+                if first == "|" || (first.chars().all(|c| c.is_ascii_digit()) && w.next() == Some("|")) { continue; }   // source excerpt of the report
+            }
+            if t == "end-of-input reached" { obs.push("EOF".into()); }
+            else if t == "Error: End-of-input reached" { obs.push("cont=eof".into()); }
+            else if t == "Error: Run rule first" || t == "Error: run rule first" { obs.push("cont=norun".into()); }
+            else if t.starts_with("Error: Previous parsing execution panic") { obs.push("run=panic".into()); }
+            else if t == "parsing timed out" { obs.push("TIMEDOUT".into()); }
+            else if let Some(r) = t.strip_prefix("Breakpoints:") {
+                let mut v: Vec<String> = r.split(',').map(|x| x.trim()).filter(|x| !x.is_empty())
+                    .map(|x| ld.names.iter().position(|n| n == x).map(|i| i.to_string()).unwrap_or(format!("?{}", esc(x)))).collect();
+                v.sort();
+                obs.push(format!("L{}", v.join("+")));
+            }
+            else if t.starts_with("panicked at") || t.contains("panicked at") { continue; }
+            else { obs.push(format!("?{}", esc(t).replace(',', ";"))); }
+        }
+        if killed { obs.push("KILLED".into()); }
+        n += 1;
+        writeln!(out, "{}\t{}\t{}\t{}\t{}", f[0], f[1], f[2], f[3], obs.join(",")).unwrap();
+    }
+    let _ = std::fs::remove_dir_all(&dir);
+    writeln!(out, "#SUMMARY\tevaluations={}", n).unwrap();
+}
+
 fn main() {
     let loud = std::env::var("C17_LOUD").is_ok();
     std::panic::set_hook(Box::new(move |info| {
@@ -471,6 +576,7 @@ fn main() {
             }
             writeln!(out, "#SUMMARY\tevaluations={}\ttimeouts={}", n, timeouts).unwrap();
         }
-        _ => { eprintln!("usage: c17 entries | c17 force < cases"); std::process::exit(2); }
+        "cli" => cli_mode(&loaded, &arg(2), arg(3).parse().unwrap_or(40), &mut out),
+        _ => { eprintln!("usage: c17 entries | c17 force < cases | c17 cli <pest_debugger binary> <delay ms> < sessions"); std::process::exit(2); }
     }
 }
